@@ -1,6 +1,7 @@
 (* C04 correspondence run.
    case  L [state; genby; date] -> L [written file; spec decoder on the observation copy;
-                                       spec decoder on the sample copy] *)
+                                       spec decoder on the sample copy;
+                                       does the case satisfy the hypotheses of hdf5_conforms] *)
 From Coq Require Import List Bool ZArith.
 From BiomV Require Import Base.Tree Base.ListUtil Base.Matrix Model.Table Model.Sparse Model.Hdf5 Run.WireH5.
 Import ListNotations.
@@ -9,6 +10,7 @@ Definition run (t : Tree) : Tree :=
   let st := tState (tnth t 0) in
   let w := to_hdf5 st (tLZ (tnth t 1)) (tLZ (tnth t 2)) in
   match w with
-  | ROk f => L [eResult eH5 w; eOpt (fun m => L (map eBigs m)) (spec_decode_csr f); eOpt (fun m => L (map eBigs m)) (spec_decode_csc f)]
-  | RErr e => L [eErr e; L []; L []]
+  | ROk f => L [eResult eH5 w; eOpt (fun m => L (map eBigs m)) (spec_decode_csr f); eOpt (fun m => L (map eBigs m)) (spec_decode_csc f);
+                eB (in_domainb st (tLZ (tnth t 1)) (tLZ (tnth t 2)) && type_in_vocabb st)]
+  | RErr e => L [eErr e; L []; L []; I 0]
   end.
